@@ -81,6 +81,8 @@ def compile_program(prog, db_kind='plain', open_opts='workers=0'):
             L.append(f'rotate {op[1]}')
         elif k == 'flush':
             L.append('worker_drain')
+        elif k == 'step':
+            L.append('worker_step')          # exactly one queued worker message (a crash point can be placed between two of them)
         elif k == 'major_compact':
             L.append(f'major_compact {op[1]}')
         elif k == 'crash':
